@@ -382,6 +382,10 @@ func (c *compiler) setupOperators() {
 	// logarithm
 	c.declareExternalRuntimeFunction("log10", ddpfloat, ir.NewParam("f", ddpfloat))
 
+	// llvm intrinsics for the conversion of Kommazahlen to Zahlen and Bytes
+	c.declareExternalRuntimeFunction("llvm.fptosi.sat.i64.f64", ddpint, ir.NewParam("f", ddpfloat))
+	c.declareExternalRuntimeFunction("llvm.fptoui.sat.i8.f64", ddpbyte, ir.NewParam("f", ddpfloat))
+
 	// ddpstring to type cast
 	c.declareExternalRuntimeFunction("ddp_string_to_int", ddpint, ir.NewParam("str", c.ddpstring.ptr))
 	c.declareExternalRuntimeFunction("ddp_string_to_float", ddpfloat, ir.NewParam("str", c.ddpstring.ptr))
